@@ -6,6 +6,7 @@ import (
 	"encoding/json"
 	"fmt"
 	"io"
+	"net/url"
 	"os"
 	"os/exec"
 	"strings"
@@ -428,6 +429,22 @@ func checkC20(c c20Case) verdict {
 		case "generateOTPURL":
 			up := otp.URLParam{Issuer: call.Issuer, AccountName: call.Account, Secret: secret, Digits: otp.Digits(d), Algorithm: otp.Algorithm(a)}
 			var want string
+			if folded := strings.ToLower(strings.TrimSpace(call.Type)); call.Type != folded && (folded == "totp" || folded == "hotp") {
+				// another letter case or surrounding blanks of one of the two words: the statement does not say whether that is
+				// "out of range" (the pinned binding refuses it, a binding that folds the word is as right): an error: string or
+				// the native URL of the word it folds to, nothing else (F30)
+				labels = append(labels, "type-word-in-another-case")
+				var u *url.URL
+				if folded == "totp" {
+					u, _ = otp.GenerateTOTPURL(up)
+				} else {
+					u, _ = otp.GenerateHOTPURL(up)
+				}
+				if sv, _ := got.Value.(string); got.Type != "string" || (!strings.HasPrefix(sv, "error:") && (u == nil || sv != u.String())) {
+					return bad(true, labels, "call %d: generateOTPURL(%v) = %v; want an error: string or the native URL of type %s", i, args, got, folded)
+				}
+				continue
+			}
 			if call.Type != "totp" && call.Type != "hotp" {
 				// a type word that is neither of the two: an argument out of range, answered with an error: string
 				labels = append(labels, "unknown-type-word")
